@@ -19,6 +19,7 @@ import (
 	"hash/fnv"
 	"reflect"
 	"sort"
+	"strings"
 	"unsafe"
 
 	"github.com/philpearl/avro"
@@ -180,11 +181,27 @@ func driveRetain(c *driverCtx, run int) {
 	vals := genValues(c.rng, st.typ, n)
 	codec := codecs3[run%3]
 	cfg := rtConfig{Codec: codec, Block: []int{0, 40, 200, 1 << 20}[run%4], Flush: map[int]bool{}}
+	large := run%6 == 5
+	if large {
+		// payloads far above any small-buffer threshold, one record per block: whatever the reader hands out must not
+		// live in a buffer that the next block overwrites
+		vals = vals[:5]
+		for i, v := range vals {
+			v.FieldByName("B").SetBytes(payload(c.rng, 33000+1000*i))
+			v.FieldByName("S").SetString(strings.Repeat(string(rune('a'+i)), 40000+i))
+		}
+		n, cfg.Block = len(vals), 0
+		codec = codecs3[(run/6)%3]
+		cfg.Codec = codec
+	}
 	w := &recWriter{}
 	if err, p := safeMake(st.mk, w, cfg, vals); err != nil || p != "" {
 		return
 	}
 	key := fmt.Sprintf("C10|retain|%s|B%d", codec, cfg.Block)
+	if large {
+		key += "|large-payloads"
+	}
 	inputs := make([]any, n)
 	for i, v := range vals {
 		inputs[i] = projectValue(v)
